@@ -2,6 +2,7 @@
 Driver code for the `ska lo` helper operations (C17, C18).
 -/
 import SkaModel.Impl.Skalo
+import SkaModel.Impl.SkaloDerep
 import SkaModel.DriverBase
 import SkaModel.DriverHist
 
@@ -33,6 +34,16 @@ def runLo (c : Case) : String × String :=
     let seqs := (c.list "seqs").map bytesOf
     let (mids, last) := extractMiddleBases seqs (c.nat "k")
     (s!"{joinStr (mids.map strOf)};{strOrDot last}", "-")
+  | "lo_derep" =>
+    let gs := (c.list "groups").filterMap (fun g =>
+      match g.splitOn ":" with
+      | [a, b, l] => some ({ entry := a.toNat?.getD 0, exit := b.toNat?.getD 0, len := l.toNat?.getD 0 } : IndelGroup)
+      | _ => none)
+    let (kept, ext) := dereplicate 128 (c.nat "k") gs
+    let ks := (kept.mergeSort (fun a b => a.entry < b.entry || (a.entry == b.entry && a.exit ≤ b.exit))).map
+      (fun g => s!"{g.entry}:{g.exit}")
+    let es := (ext.eraseDups.mergeSort (fun a b => decide (a ≤ b))).map toString
+    (s!"kept={joinStr ks} ext={joinStr es}", "-")
   | "lo_out" =>
     let genome := bytesOf (c.text "genome")
     let n := c.nat "n"
